@@ -213,10 +213,14 @@ def add (s : Sh) (due : Nat) (id : Option Nat) (kind : Kind) (tag : Nat) : Sh ×
       | none => (signal { s1 with heap := h1, log := log1 }, .ok s.next)
     else (signal { s1 with heap := h1, log := log1 }, .ok s.next)
 
-/-- `TaskExecutor.ExecuteAt`, first half: take `queuedElementsMutex`, cancel the registered task. -/
+/-- `TaskExecutor.ExecuteAt`, first half: take `queuedElementsMutex`, cancel the registered task.
+Its registration is dropped here already: nobody can look at the map before the second half has
+either overwritten the entry (`Set`) or deleted it (refused by the shut-down queue). -/
 def exec1 (s : Sh) (i : Nat) : Sh :=
   match regGet s.reg i with
-  | some x => let s' := cancelElem s x; { s' with regLocked := true, log := .replaced i x :: s'.log }
+  | some x =>
+    let s' := cancelElem s x
+    { s' with reg := regDel s'.reg i, regLocked := true, log := .replaced i x :: s'.log }
   | none => { s with regLocked := true }
 
 /-- `TaskExecutor.ExecuteAt`, second half: `Executor.ExecuteAt`, register the new element if there is
@@ -356,7 +360,10 @@ def ctlStep (s : Sh) (pc : CPc) (script : List EnvOp) : List (Sh × Th) :=
         let r := add s due none kind tag
         [({ r.1 with lastRes := r.2.toRes }, .ctl .ready rest)]
       | .exec i due kind tag => if s.regLocked then [] else [(exec1 s i, .ctl (.exec2 i due kind tag) rest)]
-      | .cancelElem x => [({ cancelElem s x with lastRes := .done }, .ctl .ready rest)]
+      | .cancelElem x =>
+        -- a handle exists only for an element that was created
+        if x < s.next then [({ cancelElem s x with lastRes := .done }, .ctl .ready rest)]
+        else [({ s with lastRes := .done }, .ctl .ready rest)]
       | .cancelId i => if s.regLocked then [] else [(cancelId s i, .ctl .ready rest)]
       | .shutdown f =>
         match sd1 s f with
